@@ -104,8 +104,12 @@ func run(c *core.Ctx) int {
 	c.Assume("the twin (same history, closes and drops are no-ops) defines 'as before'; an ordinary error = *sys.ExitError, accepted only where the model says something in the call's dependency closure was closed")
 	c.Assume("the reachability model is used for signatures, evidence labels and to keep half of the histories free of the known stale-funcref hazard; verdicts come from twin equality, R1/R2/R3 invariance and process survival only")
 	c.Assume("instantiation/compilation failures after closes are outcomes of the closing host, not of a live instance: counted, never a violation; later steps on the missing instance are skipped and instances whose state thereby differs from the twin's are compared across R1/R2/R3 only")
-	return c.Finish(d.evals, int64(c.DistinctN("nontrivial_histories")),
-		"PRNG histories (8-40 steps) over 2-4 guest modules (+host module, optional 2nd runtime sharing a CompilationCache) on interpreter/compiler alternately; each history run in 4 child processes (twin, clobberfree=1, default GC, efence=1 for <=14 steps); evaluation = one history decided; non-trivial = performed >=1 real close, >=1 forced GC and >=1 later observation on an instance, distinct by op-kind sequence")
+	code := c.Finish(d.evals, int64(c.DistinctN("nontrivial_histories")),
+		"PRNG histories (8-40 steps) over 2-4 guest modules (+host module, optional 2nd runtime sharing a CompilationCache) on interpreter/compiler alternately; each history run in 4 child processes (twin, clobberfree=1, default GC, efence=1 for <=14 steps); evaluation = one history decided; non-trivial = performed >=1 real close, >=1 forced GC and >=1 later observation on an instance, distinct by op-kind sequence; plus a -race sample of concurrent closers against a live importing instance (conc_* counters)")
+	if code == 0 { // only logs of child deaths attributed to known findings are left: no witness refers to them
+		os.RemoveAll(filepath.Join(c.Out, "children"))
+	}
+	return code
 }
 
 // runConcSample: -race flavour, concurrent closers against a live instance.
